@@ -493,6 +493,9 @@ size_t rtosc_print_arg_val(const rtosc_arg_val_t *arg,
                     int prec = opt->floating_point_precision;
                     assert(prec>=0);
                     assert(prec<100);
+                    // the fraction needs at least one digit after the period
+                    if(prec < 1)
+                        prec = 1;
 
                     // convert fractions -> float
                     float flt = rtosc_secfracs2float(secfracs);
